@@ -31,7 +31,9 @@ def write_input01(path, volumes, energies, freqs, qcoords, weights, nm=1, na=Non
             lines.append("")
     lines.append("weight")
     for j in range(nq):
-        lines.append("   " + "   ".join(float_fmt % c for c in qcoords[j]) + "   " + float_fmt % weights[j])
+        # weights with full precision: a common scale factor must re-present *the same* relative weights
+        # (a fixed number of decimals would round small scaled weights differently)
+        lines.append("   " + "   ".join(float_fmt % c for c in qcoords[j]) + "   " + repr(float(weights[j])))
     with open(path, "w") as fp:
         fp.write("\n".join(lines) + "\n")
 
